@@ -81,9 +81,9 @@ theorem configure_eq (s : Loss A Q W) (c : Cfg A Q W) :
         q := some c.q
         matA := some c.matA
         weights := match c.mode with
-          | .identity => none | .custom => c.optWeights | .invCov => some c.dataW | .ignored => s.weights
+          | .identity => none | .custom => c.optWeights | .invCov => some c.dataW
         ext := match c.mode with
-          | .identity => none | .custom => c.optWeights | .invCov => some c.dataW | .ignored => s.weights } := by
+          | .identity => none | .custom => c.optWeights | .invCov => some c.dataW } := by
   obtain ⟨o, q, a, w, e⟩ := s
   obtain ⟨mode, ow, ma, cq, dw, g⟩ := c
   cases g <;> cases mode <;> simp [configure, cfgOps, lstep, calcExt, setWeights]
